@@ -1,7 +1,7 @@
 (* C09 — acknowledged and delivered updates are durable and atomic across crashes (model level).
    Statements only; proofs in Proofs/HubProofs4.v. bbolt's write transaction is one atomic, durable step of the
    model (its contract - trusted, exercised by the kill-point runs of the harness); everything else interleaves. *)
-From Mercure Require Import Base Hub HubProofs4.
+From Mercure Require Import Base Hub HubProofs4 HubProofs7 HubProofs10.
 
 (* in every reachable state, with crashes anywhere in the schedule: every acknowledged update is committed; every
    database entry is the committed update of that sequence number (same position for ever); the newest committed
@@ -38,3 +38,21 @@ Example C09_nonvacuous :
              [APubCheck 0; APublish 0 true; APubCheck 0; APublish 0 false; ACrash; APubCheck 0; APublish 0 true] in
   h_db (w_st w) = [(2, 2); (3, 3)] /\ h_acked (w_st w) = [1; 2; 3] /\ h_lastseq (w_st w) = 3.
 Proof. vm_compute. repeat split. Qed.
+
+(* what the file holds, in every reachable state with crashes anywhere and any retention size: a contiguous suffix of
+   the committed history, in commit order, under consecutive sequence numbers starting right after what retention
+   dropped ("at the same position"), and never empty once something was committed (the newest update is there) *)
+Theorem C09_file_is_committed_suffix :
+  forall mt cap tracking size reqs pubs sched,
+  let st := w_st (wrun mt cap tracking (winit true size reqs pubs) sched) in
+  map snd (h_db st) = skipn (dropped st) (h_committed st) /\
+  map fst (h_db st) = map (fun k => N.of_nat (dropped st) + 1 + N.of_nat k) (seq 0 (length (h_db st))) /\
+  (h_committed st <> [] -> h_db st <> []).
+Proof. exact file_content. Qed.
+Print Assumptions C09_file_is_committed_suffix.
+
+Example C09_file_nonvacuous :
+  let w := wrun (fun _ _ => true) 2 false (winit true 2 [] [[1; 2; 3]])
+             [APubCheck 0; APublish 0 true; APubCheck 0; APublish 0 true; ACrash; APubCheck 0; APublish 0 true] in
+  dropped (w_st w) = 1%nat /\ map snd (h_db (w_st w)) = [2; 3] /\ map fst (h_db (w_st w)) = [2; 3].
+Proof. vm_compute. repeat split; reflexivity. Qed.
